@@ -635,7 +635,21 @@ func (w *worker) check(j *job) {
 		case "1":
 			rep.Count("opt:validated-by-dceOK")
 		case "0":
-			rep.Count("opt:not-accepted-by-dceOK")
+			// the only other change the real passes make to a one-block function is passNopInstElimination (a shift by
+			// a constant multiple of the width becomes an alias, operands are renamed): if no shift disappeared, the
+			// passes did something that is not a dead-code elimination
+			if shiftRemoved(realLines, canonLines(optText)) {
+				rep.Count("opt:not-accepted-by-dceOK:a-shift-was-removed-(alias-resolution)")
+				if a2 := w.ask(topic + " optok " + realTok + " | " + optTok); a2 == "1" {
+					rep.Count("opt:validated-by-optValid-(with-aliases)")
+				} else {
+					violate("impl-violation", "C01:frontmem-real-passes-not-validated",
+						"the verified checker optValid (no-op shifts, alias resolution, dead code) rejects the REAL RunPasses output; before: "+realTok+" ; after: "+optTok, "1", a2)
+				}
+			} else {
+				violate("impl-violation", "C01:frontmem-real-passes-not-a-dead-code-elimination",
+					"the verified checker dceOK rejects the REAL RunPasses output as a dead-code elimination of the REAL front end's output, and no shift was removed (no alias resolution); before: "+realTok+" ; after: "+optTok, "1", a)
+			}
 			if j.verbose {
 				fmt.Println("dceOK does not accept the pair")
 			}
@@ -709,6 +723,23 @@ func (w *worker) check(j *job) {
 			}
 		}
 	}
+}
+
+// shiftRemoved: a line defining a value by Ishl / Ushr / Sshr is in before and not in after
+func shiftRemoved(before, after []string) bool {
+	in := map[string]bool{}
+	for _, l := range after {
+		if lhs, _, ok := strings.Cut(l, " = "); ok {
+			in[lhs] = true
+		}
+	}
+	for _, l := range before {
+		lhs, rhs, ok := strings.Cut(l, " = ")
+		if ok && !in[lhs] && (strings.HasPrefix(rhs, "Ishl ") || strings.HasPrefix(rhs, "Ushr ") || strings.HasPrefix(rhs, "Sshr ")) {
+			return true
+		}
+	}
+	return false
 }
 
 // ---------------------------------------------------------------- distribution
